@@ -76,7 +76,9 @@
 //
 // Signatures: model:kind@energy-regime; direction-dependent kinds at a near-pole direction letter
 // get @near-pole(y<0) / @near-pole(y>=0) instead (rotate()'s renormalising branch drops the sign
-// of y: recorded); brems draw-bound carries the incident particle, model:draw-bound[e+]@regime;
+// of y: recorded; that defect is exactly a rotation into the frame of the mirrored direction
+// (x,|y|,z), so a y<0 failure keeps the recorded class only if the oracle holds about the mirrored
+// direction and becomes @near-pole(y<0;unexplained) otherwise); brems draw-bound carries the incident particle, model:draw-bound[e+]@regime;
 // an e+ annihilation momentum imbalance whose second photon lies along the incident direction
 // (the fingerprint of the recorded EPlusGG defect) is eplusgg:momentum-balance[photon1-along-
 // incident], any other imbalance keeps the ordinary signature.
@@ -393,15 +395,27 @@ static void run_config(Ctx& C, Spec const& S)
     // The near-pole class carries the sign of the incident y component (see DirLetter).
     bool near_pole = false;
     char const* pole_class = "";
+    // The recorded rotate() defect at y < 0 is EXACTLY a rotation of the products into the frame
+    // of the mirrored incident direction (x, |y|, z).  A direction-dependent oracle that fails at
+    // a y < 0 letter is therefore re-evaluated with the mirrored direction: only if it holds
+    // there does the failure carry the recorded class "@near-pole(y<0)"; otherwise the kind is
+    // passed with a trailing '!' and the class becomes "@near-pole(y<0;unexplained)" (live).
     auto sig_of = [&S, &near_pole, &pole_class](char const* kind) {
-        bool const dir_dependent = !strcmp(kind, "invalid-final-state")
-                                   || !strcmp(kind, "momentum-balance")
-                                   || !strcmp(kind, "photon-kinematics");
         std::string k = kind;
+        bool unexplained = false;
+        if (!k.empty() && k.back() == '!')
+        {
+            k.pop_back();
+            unexplained = true;
+        }
+        bool const dir_dependent = k == "invalid-final-state" || k == "momentum-balance"
+                                   || k == "photon-kinematics";
         if (k == "draw-bound" && !S.draw_tag.empty())
             k += "[" + S.draw_tag + "]";
-        return S.model + ":" + k + "@"
-               + (near_pole && dir_dependent ? std::string(pole_class) : S.regime);
+        std::string cls = near_pole && dir_dependent ? std::string(pole_class) : S.regime;
+        if (unexplained && cls == "near-pole(y<0)")
+            cls = "near-pole(y<0;unexplained)";
+        return S.model + ":" + k + "@" + cls;
     };
     // Violations of a degenerate configuration are observations
     // ... and so are failures that need BOTH the 2^-20-wide near-cut energy window AND an
@@ -568,8 +582,58 @@ static void run_config(Ctx& C, Spec const& S)
                 std::string const q = (a.p_res > tol && S.momentum_qual)
                                           ? S.momentum_qual(r, inc_dir)
                                           : std::string();
+                // y < 0 near-pole letter: is the imbalance explained by the recorded rotate()
+                // defect?  The two-body models rotate ONE product (A) from its sampled polar
+                // angle into the incident frame - with the defect: into the frame of the mirrored
+                // direction m = (x,|y|,z) - and give the other (B) the direction of
+                // p_in - p_A (calc_exiting_direction, about the true direction).  For the
+                // recorded defect therefore | p_in m - p_A d_A | == p_B for one of the two
+                // assignments (tolerance model of the balance itself); otherwise "unexplained".
+                bool mirror_ok = true;
+                if (a.p_res > tol && near_pole && inc_dir[1] < 0)
+                {
+                    struct Prod
+                    {
+                        long double p;
+                        Real3 d;
+                    };
+                    auto pmag = [&env](ParticleId id, long double ke) {
+                        return std::sqrt(ke * (ke + 2 * env.mass(id)));
+                    };
+                    std::vector<Prod> prods;
+                    if (r.action == Interaction::Action::scattered)
+                        prods.push_back({pmag(S.inc, r.energy.value()), r.direction});
+                    for (auto const& s : r.secondaries)
+                        if (s)
+                            prods.push_back({pmag(s.particle_id, s.energy.value()), s.direction});
+                    long double const pin = pmag(S.inc, S.energy);
+                    long double const mir[3] = {inc_dir[0], -(long double)inc_dir[1], inc_dir[2]};
+                    // tolerance of the balance with the angle slack taken about the mirrored
+                    // direction (a product sampled almost along the frame axis is ill-defined
+                    // in angle about THAT axis)
+                    Real3 const mir_d{inc_dir[0], -inc_dir[1], inc_dir[2]};
+                    vf::Audit const am = L.audit(S.inc, S.energy, mir_d, r);
+                    long double const tolm
+                        = 16 * eps * (am.p_scale + am.e_in * am.inv_beta_sum)
+                          + 4 * am.p_angle_slack + 4 * inc_amb * am.p_scale;
+                    mirror_ok = false;
+                    if (prods.size() == 2)
+                        for (int A = 0; A < 2; ++A)
+                        {
+                            long double v2 = 0;
+                            for (int i = 0; i < 3; ++i)
+                            {
+                                long double c = pin * mir[i] - prods[A].p * prods[A].d[i];
+                                v2 += c * c;
+                            }
+                            if (std::fabs(std::sqrt(v2) - prods[1 - A].p) <= tolm)
+                                mirror_ok = true;
+                        }
+                    R.tag(mirror_ok ? "near-pole(y<0):imbalance-explained-by-mirrored-rotation"
+                                    : "near-pole(y<0):imbalance-unexplained");
+                }
                 if (a.p_res > tol)
-                    report(q.empty() ? sig_of("momentum-balance")
+                    report(q.empty() ? sig_of(mirror_ok ? "momentum-balance" : "momentum-balance!")
                                      : S.model + ":momentum-balance[" + q + "]", fmt("|p_in - sum p_out| = %.6Lg (tolerance %.3Lg, |p| scale %.6Lg): "
                                     "%s; %s",
                                     a.p_res, tol, a.p_scale, describe(r).c_str(),
@@ -1000,7 +1064,15 @@ int main(int argc, char** argv)
                     g_kin_worst.note(double(res / tol), inc);
                     if (!(res <= tol))
                     {
-                        *sig = "photon-kinematics";
+                        // y < 0 near-pole letter: recorded class only if the relation holds
+                        // about the mirrored incident direction (see sig_of in run_config)
+                        long double c_mir = 0;
+                        for (int i = 0; i < 3; ++i)
+                            c_mir += (long double)r.secondaries[0].direction[i]
+                                     * (i == 1 ? -inc[i] : inc[i]);
+                        bool const mirror_ok = std::fabs(c_mir - c_exp) <= tol;
+                        *sig = (inc[1] < 0 && !mirror_ok) ? "photon-kinematics!"
+                                                          : "photon-kinematics";
                         return fmt("photon 0 (k0 = %.17Lg): cos to the incident direction %.17Lg, "
                                    "two-body kinematics requires %.17Lg (diff %.3Lg, tolerance "
                                    "%.3Lg)",
